@@ -48,9 +48,9 @@ def run(tier, scratch, t0, replay=None):
     if (3, 13) in K.available_hosts():
         hosts_for_part[2] = (3, 13)
 
-    def job(i):
-        wd = os.path.join(scratch.root, "hostile-%d" % i)
-        a = {"seeds": parts[i], "seed": K.get_seed(), "part": i, "workdir": wd,
+    def job(i, isolate=False):
+        wd = os.path.join(scratch.root, "hostile-%d%s" % (i, "-iso" if isolate else ""))
+        a = {"isolate": isolate, "seeds": parts[i], "seed": K.get_seed(), "part": i, "workdir": wd,
              "prefix_limit": 400 if quick else 16384, "positions": 90 if quick else 16384, "insdel": 30 if quick else 400,
              "nonbytecode": i == 0 or hosts_for_part[i] != K.MAIN_HOST, "adversarial": i in (0, 1, 2), "big": not quick}
         return K.run_agent(hosts_for_part[i], "hostile", a, scratch.root, "hostile-%d" % i, timeout=6000)
@@ -61,9 +61,15 @@ def run(tier, scratch, t0, replay=None):
             # a worker that died is a process-level observation: crash => violation, watchdog alone => inconclusive
             if err and "timeout" in err:
                 res.inconclusive.append("hostile worker %d watchdog: %s" % (i, err))
+                continue
+            # pin the culprit: re-run this part with one forked child per case
+            iso, ierr, _so, _se = job(i, isolate=True)
+            if iso is not None and iso.get("mismatches"):
+                res.merge_agent(iso)
+                res.count("c11_dead_workers_pinned")
             else:
-                res.mismatches.append({"key": "C11|worker-process-died", "detail": {"part": i, "host": K.vstr(hosts_for_part[i]),
-                                                                                    "error": (err or "")[-400:]}})
+                res.mismatches.append({"key": "C11|worker-process-died-unpinned", "detail": {"part": i, "host": K.vstr(hosts_for_part[i]),
+                                                                                             "error": (err or "")[-400:], "isolate_error": ierr}})
             continue
         res.merge_agent(out)
         res.count("hostile_workers")
